@@ -11,10 +11,10 @@ GoDeleteLemmas — vocabulary and call lemmas for `GoDelete.lean`
   `peekNext_abs`/`callFun_peekNext` likewise.
 * `fillLoop`/`fill_run`/`fillTail_run`: the NOP fill loop of both `DeleteElems`, run by the interpreter, IS
   `Iter.nopFillV lim` (index checked against the VIEW), for any loop variable / iterator name.
-  `nopFillV_eq_nopFill`, `nopFill_size`, `nopFill_get`: the model's `nopFill` against it.
+  `nopFillV_eq_nopFill`, `nopFill_size`, `nopFillV_size`: the array-checked `nopFill` against it (both `DeleteElems` of
+  the model use `nopFillV` since the repair described in `GoDelete.lean`).
 * `advance_facts`: a step of the model's `advance` that returns an element moves the cursor forward, stays in the view,
   leaves `addNext ≥ 0`, and stands on the word it read.
-* `EndsInside`: the static condition "every element of the view ends inside the view", kept by fills (`EndsInside.fill`).
 * `ItInv`/`advEnv`/`logOf`/`encIter`/`encNI`, the callback statements (`exec1_cb_*`), and the pieces of the body of the
   two `Object` loops in continuation style (`objHeadA_run`, `objHeadB_run`, `objFilter_run`, `objValue_run`).
 -/
@@ -499,77 +499,17 @@ theorem nopFill_size : ∀ (n lo hi : Nat) (tape t' : Array UInt64), hi - lo ≤
     · rw [nopFill_ge _ _ _ hlt] at h
       cases h; rfl
 
-/-- packing of tape words, arithmetically (copied from `DeleteDoc`, which is not imported here) -/
-theorem mkWord_toNat (t : UInt8) (v : UInt64) (h : v.toNat < 2^56) : (mkWord t v).toNat = t.toNat * 2^56 + v.toNat := by
-  unfold mkWord
-  have ht := t.toNat_lt
-  simp only [UInt64.toNat_or, UInt64.toNat_shiftLeft, UInt8.toNat_toUInt64]
-  have e1 : (56 : UInt64).toNat % 64 = 56 := by decide
-  rw [e1, Nat.shiftLeft_eq, Nat.mod_eq_of_lt (by omega), ← Nat.shiftLeft_eq]
-  exact (Nat.shiftLeft_add_eq_or_of_lt h _).symm
-
-theorem tagOf_mkWord_small (t : UInt8) (v : UInt64) (h : v.toNat < 2^56) : tagOf (mkWord t v) = t := by
-  apply UInt8.toNat_inj.mp
-  unfold tagOf
-  have ht := t.toNat_lt
-  simp only [UInt64.toNat_toUInt8, UInt64.toNat_shiftRight, mkWord_toNat t v h]
-  have e1 : (56 : UInt64).toNat % 64 = 56 := by decide
-  rw [e1, Nat.shiftRight_eq_div_pow]
-  omega
-
-/-- what the fill leaves on the tape: old words, and NOP words in `[lo, hi)` -/
-theorem nopFill_get : ∀ (n lo hi : Nat) (tape t' : Array UInt64), hi - lo ≤ n → Iter.nopFill tape lo hi = .ok t' →
-    ∀ k, t'[k]? = tape[k]? ∨ (lo ≤ k ∧ k < hi ∧ t'[k]? = some (mkWord tagNop (UInt64.ofNat (hi - k)))) := by
-  intro n
-  induction n with
-  | zero =>
-    intro lo hi tape t' h1 h k
-    rw [nopFill_ge _ _ _ (by omega)] at h
-    cases h; exact Or.inl rfl
-  | succ n ih =>
-    intro lo hi tape t' h1 h k
-    by_cases hlt : lo < hi
-    · rw [nopFill_lt _ _ _ hlt] at h
-      by_cases hs : lo < tape.size
-      · rw [wr_ok _ _ _ hs] at h
-        simp only [Res.bind_ok] at h
-        rcases ih _ _ _ _ (by omega) h k with hk | ⟨a, b, c⟩
-        · by_cases hkl : k = lo
-          · subst hkl
-            refine Or.inr ⟨Nat.le_refl _, hlt, ?_⟩
-            rw [hk]; simp [hs]
-          · refine Or.inl ?_
-            rw [hk, Array.getElem?_set_ne]
-            exact fun hh => hkl hh.symm
-        · exact Or.inr ⟨by omega, b, c⟩
-      · rw [wr_panic _ _ _ (by omega)] at h; cases h
-    · rw [nopFill_ge _ _ _ hlt] at h
-      cases h; exact Or.inl rfl
-
-/-! ## a static condition under which every element ends inside the view -/
-
-/-- every live word of the view `[0, lim)` that starts an element ends it inside the view: `k + 2 ≤ lim` for the
-    two-word scalars, payload `≤ lim` for the container openers (what `calcNext` computes) -/
-def EndsInside (lim : Nat) (tape : Array UInt64) : Prop :=
-  ∀ k w, k < lim → tape[k]? = some w → tagOf w ≠ tagNop →
-    ((k + 1 : Nat) : Int) +
-      (Iter.calcNext { lim := lim, off := k + 1, addNext := 0, cur := payloadOf w, t := tagOf w } false).addNext ≤ lim
-
-/-- deleting (NOP-filling) a range of a tape shorter than 2^56 words keeps the condition -/
-theorem EndsInside.fill {lim : Nat} {tape t' : Array UInt64} {lo hi : Nat} (h : EndsInside lim tape)
-    (hf : Iter.nopFill tape lo hi = .ok t') (hh : hi < 2^56) : EndsInside lim t' := by
-  intro k w hk hw hn
-  rcases nopFill_get _ _ _ _ _ (Nat.le_refl _) hf k with hk' | ⟨a, b, c⟩
-  · exact h k w hk (by rw [← hk', hw]) hn
-  · exfalso
-    rw [hw] at c
-    simp only [Option.some.injEq] at c
-    apply hn
-    rw [c]
-    apply tagOf_mkWord_small
-    have : hi - k < 2^56 := by omega
-    simp only [UInt64.toNat_ofNat']
-    omega
+/-- a fill through a view that succeeds keeps the length of the array -/
+theorem nopFillV_size (lim lo hi : Nat) (tape t' : Array UInt64) (h : Iter.nopFillV lim tape lo hi = .ok t') :
+    t'.size = tape.size := by
+  by_cases hlt : lo < hi
+  · by_cases hv : hi ≤ lim
+    · rw [nopFillV_eq_nopFill lim _ _ _ _ (Nat.le_refl _) hv] at h
+      exact nopFill_size _ _ _ _ _ (Nat.le_refl _) h
+    · rw [nopFillV_panic lim _ _ _ _ (Nat.le_refl _) hlt (by omega)] at h
+      cases h
+  · rw [nopFillV_ge _ _ _ _ hlt] at h
+    cases h; rfl
 
 /-! ## the model's `advance`: every live step moves the cursor forward -/
 
